@@ -46,6 +46,11 @@ def generate(rng, tier):
                 if rep == 1:  # a grid point exactly on the cutoff
                     c["cutoff"] = c["r"][max(1, len(c["r"]) // 2)]
                     c["desc"]["cutoff"] = "grid"
+                # Lorch on a low-r section whose largest abscissa is 0 divides pi by zero: outside every property's domain
+                low_ = [v for v in c["r"] if 0.0 <= v <= c["cutoff"]]
+                if c["lorch"] and (not low_ or max(low_) <= 0.0):
+                    c["lorch"] = False
+                    c["desc"]["lorch"] = False
                 cases.append(c)
     return cases
 
